@@ -1426,3 +1426,116 @@ func blockParamName(fn *ssa.Function) string {
 	}
 	return "blk"
 }
+
+// ---------------------------------------------------------------- R-BLOCK-FRESH
+
+func init() {
+	reg(&Rule{ID: "R-BLOCK-FRESH", Min: 14,
+		Doc: "on the blk != nil side, every return of Parse is preceded on all paths by a truncating store to both blk.Sequences and blk.Literals (X = X[:0] or append(X[:0], …)): a reused Block never keeps content of an earlier call",
+		Run: ruleBlockFresh})
+}
+
+// truncating: v is X[:0] of the block field, or an append chain rooted at such a slice.
+func truncatingValue(v ssa.Value, field string, depth int) bool {
+	if depth > 6 {
+		return false
+	}
+	switch x := v.(type) {
+	case *ssa.Slice:
+		if x.Low == nil && x.High != nil {
+			if k, isC := constInt(x.High); isC && k == 0 {
+				if _, p, ok := pathStr(x.X); ok && lastField(p) == field {
+					return true
+				}
+			}
+		}
+	case *ssa.Call:
+		if bi, ok := x.Call.Value.(*ssa.Builtin); ok && bi.Name() == "append" {
+			return truncatingValue(x.Call.Args[0], field, depth+1)
+		}
+	}
+	return false
+}
+
+func ruleBlockFresh(c *Ctx) {
+	for _, p := range c.parsers() {
+		fn := p.Parse
+		if fn == nil {
+			continue
+		}
+		fi := c.info(fn)
+		bp := blockParam(fn)
+		if bp == nil {
+			c.fail(fnName(fn)+":block", fn.Pos(), "no *Block parameter")
+			continue
+		}
+		for _, field := range []string{"Sequences", "Literals"} {
+			trunc := map[*ssa.BasicBlock]bool{}
+			for _, b := range fn.Blocks {
+				for _, in := range b.Instrs {
+					st, ok := in.(*ssa.Store)
+					if !ok {
+						continue
+					}
+					fa, ok := st.Addr.(*ssa.FieldAddr)
+					if !ok || fa.X != ssa.Value(bp) || derefStruct(fa.X.Type()).Field(fa.Field).Name() != field {
+						continue
+					}
+					if truncatingValue(st.Val, field, 0) {
+						trunc[b] = true
+					}
+				}
+			}
+			key := fmt.Sprintf("%s:fresh:%s", fnName(fn), field)
+			// blocks reachable from entry without passing a truncating block
+			seen := map[*ssa.BasicBlock]bool{}
+			var stack []*ssa.BasicBlock
+			if !trunc[fn.Blocks[0]] {
+				stack = append(stack, fn.Blocks[0])
+				seen[fn.Blocks[0]] = true
+			}
+			for len(stack) > 0 {
+				b := stack[len(stack)-1]
+				stack = stack[:len(stack)-1]
+				for _, s := range b.Succs {
+					if seen[s] || trunc[s] {
+						continue
+					}
+					seen[s] = true
+					stack = append(stack, s)
+				}
+			}
+			bad := ""
+			for b := range seen {
+				r, ok := b.Instrs[len(b.Instrs)-1].(*ssa.Return)
+				if !ok {
+					continue
+				}
+				// returns on the blk == nil side are exempt
+				nilSide := false
+				for _, cd := range fi.condsAt(b) {
+					if isNilCmp(cd, bp) == -1 {
+						nilSide = true
+					}
+				}
+				if nilSide {
+					continue
+				}
+				bad = c.pos(r.Pos())
+			}
+			c.check(bad == "" && len(trunc) > 0, key, fn.Pos(), "blk."+field+" is truncated on every path to a return of the non-nil side",
+				"the return at "+bad+" can be reached without blk."+field+" having been truncated by this call: a reused Block keeps sequences or literals of an earlier call (the block then expands to more than the n bytes reported)")
+		}
+	}
+}
+
+func blockParam(fn *ssa.Function) *ssa.Parameter {
+	for _, p := range fn.Params {
+		if pt, ok := p.Type().(*types.Pointer); ok {
+			if n, ok := pt.Elem().(*types.Named); ok && n.Obj().Name() == "Block" {
+				return p
+			}
+		}
+	}
+	return nil
+}
